@@ -155,7 +155,7 @@ func (h *FBDNSDB) ServeDNSWithRCODE(ctx context.Context, w dns.ResponseWriter, r
 	)
 	h.stats.IncrementCounter("DNS_queries")
 
-	reader, err := h.AcquireReader()
+	reader, generation, err := h.acquireReader()
 	if err != nil {
 		h.stats.IncrementCounter("DNS_db.read_error")
 		// We cannot acquire a reader, most likely because the DB couldn't be loaded.
@@ -368,10 +368,10 @@ func (h *FBDNSDB) ServeDNSWithRCODE(ctx context.Context, w dns.ResponseWriter, r
 		if !weighted {
 			// FIXME: we can leave this in cache until it get flushed (via DB reload)
 			timeout = time.Now().Unix() + 1000
-			h.lru.Add(cacheKey, cacheEntry{expiration: timeout, response: a.Copy()})
+			h.cacheAdd(generation, cacheKey, cacheEntry{expiration: timeout, response: a.Copy()})
 		} else if h.cacheConfig.WRSTimeout > 0 {
 			timeout = time.Now().Unix() + h.cacheConfig.WRSTimeout
-			h.lru.Add(cacheKey, cacheEntry{expiration: timeout, response: a.Copy()})
+			h.cacheAdd(generation, cacheKey, cacheEntry{expiration: timeout, response: a.Copy()})
 		}
 	}
 
